@@ -905,7 +905,12 @@ func observeIng(w *World, ingEx *configs.IngressEx, m *configs.MergeableIngresse
 const ns = "default"
 
 var kinds = []string{"access", "rate", "jwt", "jwks", "basic", "imtls", "emtls", "oidc", "apikey", "waf", "wafb"}
-var scopes = []string{"server", "route", "subroute", "inherited"}
+
+// inherited-xns: as inherited, but the VirtualServerRoute lives in ANOTHER namespace than the VirtualServer, a
+// usable policy of the same NAME exists in that namespace and is in the VirtualServer's policy map because a
+// sibling subroute references it: the inherited references were written in the VirtualServer and must be
+// resolved in the VirtualServer's namespace.
+var scopes = []string{"server", "route", "subroute", "inherited", "inherited-xns"}
 
 // samename-*: two references with the same NAME in different namespaces in one list:
 //
@@ -1218,6 +1223,11 @@ func productWorld(r *vh.Rng, g Gen, plus bool) World {
 	case "inherited":
 		vs.Routes = []RouteIn{{Path: "/r1", VSR: ns + "/vsr1", Policies: scopeRefs}, ctl}
 		vs.VSRs = []VSRIn{{NS: ns, Name: "vsr1", Subroutes: []RouteIn{{Path: "/r1/s0", Shape: shape}}}}
+	case "inherited-xns":
+		addPolicyOfKindNS(&w, "access", "p-bad", otherNS)
+		vs.Routes = []RouteIn{{Path: "/r1", VSR: otherNS + "/vsr1", Policies: scopeRefs}, ctl}
+		vs.VSRs = []VSRIn{{NS: otherNS, Name: "vsr1", Subroutes: []RouteIn{{Path: "/r1/s0", Shape: shape},
+			{Path: "/r1/own", Shape: "pass", Policies: []RefIn{{Name: "p-bad"}}}}}}
 	}
 	w.VS = vs
 	return w
@@ -1229,6 +1239,9 @@ func productGens() []Gen {
 		for _, sc := range scopes {
 			for _, m := range modesOf(k) {
 				for _, p := range positions {
+					if sc == "inherited-xns" && strings.HasPrefix(p, "samename-") {
+						continue // those positions use the name p-bad in the other namespace themselves
+					}
 					out = append(out, Gen{Kind: k, Scope: sc, Mode: m, Pos: p})
 				}
 			}
